@@ -5,6 +5,7 @@ import (
 	"fmt"
 	"io/fs"
 	"os"
+	"strings"
 	"syscall"
 	"time"
 
@@ -61,8 +62,18 @@ func c15Fixed() [][]c15step {
 			R(wire.Tremove, u(3)), R(wire.Treadlink, u(1)), R(wire.Tstatfs, u(1)), R(wire.Tlock, u(1), u(1), u(0), u(0), u(1), u(1), "c")),
 		s(R(wire.Tattach, u(0), nf, "u", "", u(wire.NOUID)), R(wire.Twalk, u(0), u(1), []string{"d"}), R(wire.Tlopen, u(1), u(0)), R(wire.Treaddir, u(1), u(0), u(4096)), R(wire.Twalk, u(0), u(2), []string{"l"}), R(wire.Treadlink, u(2)),
 			R(wire.Twalk, u(0), u(1), []string{"a", "g"}), R(wire.Tlopen, u(1), u(2)), R(wire.Twrite, u(1), u(1), []byte("q")), R(wire.Tread, u(1), u(0), u(4)), R(wire.Tgetattr, u(1), u(0x3fff))),
+		// c15FanOut: four fids below a directory that is then renamed - Renamed
+		// is called on each of their Files (and on the intermediate ones). A
+		// panic in one of those calls is the rename's; the other Files still
+		// learn their new name. Nothing in this sequence unlinks anything: a
+		// Tgetattr answered ENOENT afterwards means a File left at its old path.
+		s(R(wire.Tattach, u(0), nf, "u", "", u(wire.NOUID)), R(wire.Twalk, u(0), u(1), []string{"a", "b", "f"}), R(wire.Twalk, u(0), u(2), []string{"a", "g"}), R(wire.Twalk, u(0), u(3), []string{"a", "l"}), R(wire.Twalk, u(0), u(4), []string{"a", "b"}),
+			R(wire.Trenameat, u(0), "a", u(0), "z"), R(wire.Tgetattr, u(1), u(0x3fff)), R(wire.Tgetattr, u(3), u(0x3fff))),
 	}
 }
+
+// c15FanOut is the index of the fan-out sequence in c15Fixed.
+const c15FanOut = 6
 
 func c15Random(r *ev.Rand) []c15step {
 	fsx := fixture()
@@ -107,7 +118,7 @@ func c15Run(c *ev.Ctx, seq []c15step, si int, faultAt int, ferr error, kind stri
 	}
 	fired := false
 	firedAt := -1
-	var firedMethod string
+	var firedMethod, firedPath string
 	panicSpread := false
 	for i, s := range seq {
 		if st.dead {
@@ -146,7 +157,7 @@ func c15Run(c *ev.Ctx, seq []c15step, si int, faultAt int, ferr error, kind stri
 				fired, firedAt = true, i
 				for _, cl := range fsx.Calls(mark) {
 					if cl.Fault != "" {
-						firedMethod = cl.Method
+						firedMethod, firedPath = cl.Method, cl.Path
 					}
 				}
 				if res.Msg.Type != wire.Rlerror || res.Errno() != EFAULT {
@@ -176,7 +187,7 @@ func c15Run(c *ev.Ctx, seq []c15step, si int, faultAt int, ferr error, kind stri
 				fired, firedAt = true, i
 				for _, cl := range fsx.Calls(mark) {
 					if cl.Fault != "" {
-						firedMethod = cl.Method
+						firedMethod, firedPath = cl.Method, cl.Path
 					}
 				}
 			}
@@ -215,6 +226,13 @@ func c15Run(c *ev.Ctx, seq []c15step, si int, faultAt int, ferr error, kind stri
 				}
 				if g.Errno() == EBADF {
 					continue
+				}
+				// (the File whose own Renamed panicked never learnt its name, nor
+				// did the Files that compute theirs from it: the backend's affair)
+				orig := map[uint64]string{1: "/a/b/f", 2: "/a/g", 3: "/a/l", 4: "/a/b"}[fid]
+				if si == c15FanOut && g.Errno() == ENOENT && firedPath != "" && orig != firedPath && !strings.HasPrefix(orig, firedPath+"/") {
+					c.Violation("C15:another-File-left-at-its-old-path-after-a-panic-in-"+firedMethod, map[string]any{"fid": fid, "panic_was_in": firedMethod, "trace": st.tail()})
+					break
 				}
 				for _, q := range []struct {
 					what string
